@@ -970,3 +970,10 @@ mod tests {
         assert_eq!(values, vec![10, 30]);
     }
 }
+
+// Verification hook (inactive unless built with `--cfg agdb_verif` under Kani).
+#[cfg(all(agdb_verif, kani))]
+#[allow(unused, dead_code, clippy::all)]
+pub(crate) mod verif_h {
+    include!(concat!(env!("AGDB_VERIF_HARNESS"), "/multi_map_h.rs"));
+}
